@@ -1,13 +1,212 @@
-import NxModel.Prudp.Select
+import NxProofs.PrudpChecked
 /-!
-# C03 — PRUDP packet codecs are lossless and independent of framing (statements; proofs in NxProofs/Prudp*.lean)
+# C03 — PRUDP packet codecs are lossless and independent of framing
+
+Model: `NxModel/Prudp/{Packet,Options,V0,V1,Lite,Select}.lean` (mirrors prudp.py 66-534; tied to the code by
+`harness/corr_C03.py`). Statements only; proofs in `NxProofs/Prudp*.lean`.
+
+`V0WF c p` / `V1WF p` / `LiteWF p` are the property's quantifier made explicit: field ranges (4-bit ports and stream
+types for v0/v1, 8-bit ports for lite, type < 16 (< 8 with v0 flags_version 0), flags < 2^12 (< 2^5), 8-bit session /
+fragment / substream, 16-bit ids, supported_functions < 2^24, payload < 2^16 where a size field carries it, signature
+length = signature_size, connection signature 4 / 16 bytes where carried) and *fields the encoding does not carry are at
+the value the decoder produces* (e.g. substream in v0/lite, fragment id in non-DATA v0/v1, `version` = 0 / 1 / None).
+The v0 theorems are parametric in `V0Cfg`: one statement covers the 2×2×2 variants and every access key.
+
+Not proved here (said in the manifest): the bytes→packet→bytes direction for *arbitrary* accepted bytes
+(`decode b = ok [p] → encode p = b`). It is false as stated for v0 (negative-length corner, see
+`v0_negative_length_corner`) and for v1/lite when options arrive in another order; the property itself only speaks about
+re-encoding a decoded *encoding*, which is `*_reencode` below.
 -/
 namespace Nx.C03
 open Nx Nx.Prudp
+
+/-! ## decode ∘ encode = id (every field), per encoding -/
+
+/-- v0, all 8 variants and every access key: type, flags, ports, stream types, session, sequence and fragment ids,
+    both signatures and payload survive -/
+theorem v0_decode_encode (c : V0Cfg) (p : Packet) (h : V0WF c p) : v0Decode c (v0Encode c p) = .ok [p] :=
+  v0Decode_encode c p h
+
+/-- v1: additionally substream id and the negotiation options (minor version, supported functions, connection
+    signature, max substream, initial unreliable id) -/
+theorem v1_decode_encode (p : Packet) (h : V1WF p) : v1Decode (v1Encode p) = .ok [p] :=
+  v1Decode_encode p h
+
+/-- lite: one `decode` call on a fresh object returns the packet and leaves the buffer empty -/
+theorem lite_decode_encode (p : Packet) (h : LiteWF p) : liteFeed [] (liteEncode p) = (.ok [p], []) :=
+  liteFeed_encode p h
+
+/-! ## re-encoding the decoded packet yields identical bytes -/
+
+theorem v0_reencode (c : V0Cfg) (p : Packet) (h : V0WF c p) :
+    (v0Decode c (v0Encode c p)).map (fun qs => qs.flatMap (v0Encode c)) = .ok (v0Encode c p) := by
+  rw [v0Decode_encode c p h]; simp [Except.map]
+
+theorem v1_reencode (p : Packet) (h : V1WF p) :
+    (v1Decode (v1Encode p)).map (fun qs => qs.flatMap v1Encode) = .ok (v1Encode p) := by
+  rw [v1Decode_encode p h]; simp [Except.map]
+
+theorem lite_reencode (p : Packet) (h : LiteWF p) :
+    (liteFeed [] (liteEncode p)).1.map (fun qs => qs.flatMap liteEncode) = .ok (liteEncode p) := by
+  rw [liteFeed_encode p h]; simp [Except.map]
+
+/-! ## the total encoders are the code's encoders on well-formed packets (no exception is raised) -/
+
+theorem v0_encode_no_exception (c : V0Cfg) (p : Packet) (h : V0WF c p) : v0EncodeChecked c p = .ok (v0Encode c p) :=
+  v0EncodeChecked_wf c p h
+
+theorem v1_encode_no_exception (p : Packet) (h : V1WF p) : v1EncodeChecked p = .ok (v1Encode p) :=
+  v1EncodeChecked_wf p h
+
+theorem lite_encode_no_exception (p : Packet) (h : LiteWF p) : liteEncodeChecked p = .ok (liteEncode p) :=
+  liteEncodeChecked_wf p h
+
+/-! ## several packets in one datagram decode to the same sequence -/
+
+/-- v0 needs `FLAG_HAS_SIZE` on every packet but the last (without it a packet's payload extends to the checksum
+    at the end of the datagram) -/
+theorem v0_concat (c : V0Cfg) (ps : List Packet) (hwf : ∀ p ∈ ps, V0WF c p) (hs : v0SizedButLast ps) :
+    v0Decode c (ps.flatMap (v0Encode c)) = .ok ps :=
+  v0Decode_concat c ps hwf hs
+
+theorem v1_concat (ps : List Packet) (hwf : ∀ p ∈ ps, V1WF p) : v1Decode (ps.flatMap v1Encode) = .ok ps :=
+  v1Decode_concat ps hwf
+
+theorem lite_concat (ps : List Packet) (hwf : ∀ p ∈ ps, LiteWF p) :
+    liteFeed [] (ps.flatMap liteEncode) = (.ok ps, []) :=
+  liteFeed_concat ps hwf
+
+/-! ## a lite byte stream decodes to the same packets however it is cut into chunks -/
+
+/-- For every list of well-formed packets, every `tail` that is empty or a proper prefix of the encoding of a
+    well-formed packet, and **every** partition `chunks` of the stream (empty chunks included): feeding the chunks
+    one `decode` call at a time to a fresh object yields exactly the packets, and the buffer ends up holding exactly
+    `tail`. (Deliberately about valid streams: after a framing error the code's behaviour does depend on the cut.) -/
+theorem lite_chunking (ps : List Packet) (hwf : ∀ p ∈ ps, LiteWF p) (tail : Bytes)
+    (ht : tail = [] ∨ ∃ p u, LiteWF p ∧ u ≠ [] ∧ tail ++ u = liteEncode p)
+    (chunks : List Bytes) (hc : chunks.flatten = ps.flatMap liteEncode ++ tail) :
+    liteFeedAll [] chunks = (.ok ps, tail) :=
+  Nx.Prudp.lite_chunking ps hwf tail ht chunks hc
+
+/-- the same statement from any reachable intermediate state: with a pending buffer, feeding chunk by chunk equals
+    one call on the concatenation -/
+theorem lite_chunks_equal_one_read (chunks : List Bytes) (buf : Bytes) (hb : LitePending buf)
+    (hv : LiteValidPrefix (buf ++ chunks.flatten)) :
+    liteFeedAll buf chunks = liteFeed [] (buf ++ chunks.flatten) :=
+  liteFeedAll_eq_run chunks buf hb hv
+
+/-! ## options -/
+
+/-- a dict with distinct known keys and in-range values survives `decode_options ∘ encode_options`, order included -/
+theorem options_roundtrip (o : Opts) (h : OptsWF o) : decodeOptions (encodeOptions o) = .ok o :=
+  Nx.Prudp.options_roundtrip o h
+
+/-- an unknown option type is rejected -/
+theorem options_reject_unknown (fuel : Nat) (seen : List Nat) (t l : UInt8) (r : Bytes) (h : optInfo t.toNat = none) :
+    decodeOptionsLoop (fuel + 1) seen (t :: l :: r) = .error .value :=
+  decodeOptionsLoop_unknown fuel seen t l r h
+
+/-- a length byte that differs from the table is rejected -/
+theorem options_reject_length (fuel : Nat) (seen : List Nat) (t l : UInt8) (r : Bytes) (size : Nat) (fmt : OptFmt)
+    (h : optInfo t.toNat = some (size, fmt)) (hl : l.toNat ≠ size) :
+    decodeOptionsLoop (fuel + 1) seen (t :: l :: r) = .error .value :=
+  decodeOptionsLoop_badlen fuel seen t l r size fmt h hl
+
+/-- a second occurrence of a key after any well-formed block is rejected -/
+theorem options_reject_duplicate (o : Opts) (k : Nat) (v : OptVal) (rest : Bytes) (ho : OptsWF o)
+    (hk : k ∈ o.keys) (hv : OptEntryWF k v) :
+    decodeOptions (encodeOptions o ++ (encodeOption k v ++ rest)) = .error .value :=
+  decodeOptions_dup o k v rest ho hk hv
+
+/-- whatever is accepted has pairwise distinct keys -/
+theorem options_decoded_keys_distinct (d : Bytes) (o : Opts) (h : decodeOptions d = .ok o) : o.keys.Nodup :=
+  (decodeOptionsLoop_keys _ [] d o h).1
+
+/-! ## encoding selection -/
 
 /-- with `prudp.version = 2` on UDP, datagrams starting `EA D0 01` go to v1 and everything else to v0 -/
 theorem select_by_magic (s : SelCfg) (data : Bytes) (ht : s.transport = TRANSPORT_UDP) (hv : s.version = 2) :
     analyze s data = if data.take 3 = [0xEA, 0xD0, 0x01] then .v1 else .v0 := by
   simp [analyze, ht, hv]
+
+/-- otherwise by settings only: v0 for version 0, v1 for any other version on UDP, lite on TCP/WebSocket -/
+theorem select_by_settings (s : SelCfg) (data : Bytes) (h : ¬ (s.transport = TRANSPORT_UDP ∧ s.version = 2)) :
+    analyze s data = if s.transport = TRANSPORT_UDP then (if s.version = 0 then .v0 else .v1) else .lite := by
+  simp [analyze, h, select]
+
+/-- a v1 encoding is always recognised by its magic -/
+theorem v1_encoding_has_magic (p : Packet) (x : Bytes) : (v1Encode p ++ x).take 3 = [0xEA, 0xD0, 0x01] := by
+  simp [v1Encode, v1EncodeHeader, u8, b8]
+
+/-! ## progress / termination (`decode_total_linear`): an iteration either fails or consumes ≥ 10 / 30 / 12 bytes, and
+the loop bound (`len + 1` iterations) is never what decides the result -/
+
+theorem v0_decode_progress {c : V0Cfg} {d r : Bytes} {p : Packet} (h : v0DecodeOne c d = .ok (p, r)) :
+    r.length + 10 ≤ d.length :=
+  v0DecodeOne_progress h
+
+theorem v1_decode_progress {d r : Bytes} {p : Packet} (h : v1DecodeOne d = .ok (p, r)) : r.length + 30 ≤ d.length :=
+  v1DecodeOne_progress h
+
+theorem v0_decode_fuel_irrelevant (c : V0Cfg) (fuel : Nat) (d : Bytes) (h : d.length < fuel) :
+    v0Loop c fuel d = v0Decode c d :=
+  v0Loop_fuel c _ _ d h (by omega)
+
+theorem v1_decode_fuel_irrelevant (fuel : Nat) (d : Bytes) (h : d.length < fuel) : v1Loop fuel d = v1Decode d :=
+  v1Loop_fuel _ _ d h (by omega)
+
+theorem lite_decode_fuel_irrelevant (fuel : Nat) (buf chunk : Bytes) (h : (buf ++ chunk).length < fuel) :
+    liteLoop fuel (buf ++ chunk) = liteFeed buf chunk :=
+  liteLoop_fuel _ _ _ h (by omega)
+
+/-! ## the v0 negative-length corner, as the code behaves: a 10-byte datagram (flags_version 0, checksum_version 1,
+no HAS_SIZE, no room for a checksum after the fixed fields) is *accepted* — `stream.read(-1)` moves the cursor back and
+the last header byte doubles as the checksum — and re-encoding the decoded packet gives 11 different bytes. So
+"re-encode = identity" holds for encodings (`v0_reencode`), not for every accepted datagram. -/
+theorem v0_negative_length_corner :
+    let c : V0Cfg := { signatureVersion := 0, checksumVersion := 1, flagsVersion := 0, accessKey := [] }
+    let d : Bytes := [0x11, 0x22, 0x03, 0x05, 1, 2, 3, 4, 0x09, 0x4E]
+    let p : Packet := { type := 3, flags := 0, version := some 0, sourceType := 1, sourcePort := 1, destType := 2,
+                        destPort := 2, sessionId := 5, packetId := 0x4E09, signature := some [1, 2, 3, 4], payload := [] }
+    v0Decode c d = .ok [p] ∧ (v0Encode c p).length = 11 ∧ v0Encode c p ≠ d := by
+  decide
+
+/-! ## non-vacuity: the hypotheses are satisfiable at non-trivial points -/
+
+def exV0 : Packet :=
+  { type := 2, flags := 0xB, version := some 0, sourceType := 10, sourcePort := 15, destType := 10, destPort := 1,
+    sessionId := 0xFE, packetId := 0xFFFF, fragmentId := 0xFF, signature := some [1, 2, 3, 4], payload := [9, 8, 7] }
+def exV0Syn : Packet :=
+  { type := 0, flags := 0x204, version := some 0, sourceType := 15, sourcePort := 15, destType := 15, destPort := 15,
+    sessionId := 0xFF, packetId := 0x8000, connectionSignature := some [0xA, 0xB, 0xC, 0xD], signature := some [0, 0, 0, 0] }
+def exV1 : Packet :=
+  { type := 1, flags := 0x206, version := some 1, sourceType := 10, sourcePort := 15, destType := 10, destPort := 1,
+    sessionId := 0x80, packetId := 0xFFFF, substreamId := 3, connectionSignature := some (List.replicate 16 0xAB),
+    initialUnreliableId := 0xFFFF, maxSubstreamId := 0xFF, supportedFunctions := 0xFFFFFF, minorVersion := 0xFF,
+    signature := some (List.replicate 16 0x11), payload := [1, 2] }
+def exLite : Packet :=
+  { type := 1, flags := 0x6, version := none, sourceType := 15, sourcePort := 0xFF, destType := 10, destPort := 0x80,
+    packetId := 1, fragmentId := 0x7F, connectionSignature := some [], supportedFunctions := 0x800000, minorVersion := 4,
+    signature := some (List.replicate 16 0x22), payload := [5] }
+
+example : V0WF { flagsVersion := 1, checksumVersion := 0, accessKey := [0x72, 0x69] } exV0 := by decide
+example : V0WF { flagsVersion := 1 } exV0Syn := by decide
+example : v0SizedButLast [exV0, exV0Syn] := ⟨by decide, trivial⟩
+example : V1WF exV1 := by decide
+example : LiteWF exLite := by decide
+example : v0Decode { flagsVersion := 1, checksumVersion := 0, accessKey := [0x72, 0x69] }
+    (v0Encode { flagsVersion := 1, checksumVersion := 0, accessKey := [0x72, 0x69] } exV0) = .ok [exV0] := by decide
+example : v1Decode (v1Encode exV1) = .ok [exV1] := by decide
+example : liteFeedAll [] [(liteEncode exLite).take 5, [], (liteEncode exLite).drop 5 ++ [0x80, 0]] = (.ok [exLite], [0x80, 0]) := by
+  decide
+example : OptsWF [(4, .int 255), (0, .int 0xFFFFFFFF), (128, .bytes (List.replicate 16 7))] := by
+  refine ⟨by decide, ?_⟩
+  intro kv h
+  simp at h
+  rcases h with rfl | rfl | rfl <;> simp [OptEntryWF]
+example : LitePending ((liteEncode exLite).take 20) :=
+  Or.inr ⟨exLite, (liteEncode exLite).drop 20, by decide, by decide, by simp⟩
+example : analyze { transport := 0, version := 2 } [0xEA, 0xD0, 0x01, 0] = .v1 := by decide
+example : analyze { transport := 0, version := 2 } [0xEA, 0xD0, 0x00, 0] = .v0 := by decide
 
 end Nx.C03
